@@ -299,6 +299,11 @@ fn reply(rng: &mut Rng, status: u16, body: Value, plain: bool) -> Value {
         "chunk_ext": unusual && rng.chance(1, 4),
         "trailers": unusual && rng.chance(1, 4),
         "odd_case": unusual && rng.chance(1, 4),
+        // a chunked reply that carries a Content-Length as well (equal to or different from the
+        // decoded length). RFC 9112 6.3: Transfer-Encoding overrides, and a recipient may also
+        // treat the message as an error, so either outcome is accepted for these replies (success
+        // with exactly the JSON, or a reported failure with the output untouched).
+        "also_cl": if framing == "chunked" && rng.chance(1, 5) { json!(*rng.pick(&[0i64, -5, 40])) } else { Value::Null },
     })
 }
 
@@ -317,6 +322,8 @@ pub struct Built {
     pub meaning: Meaning,
     pub class: String,
     pub cut_bucket: String,
+    /// the reply is one a client may either accept or reject (see `also_cl`)
+    pub either_ok: bool,
 }
 
 fn reason(status: u16) -> &'static str {
@@ -379,7 +386,7 @@ pub fn body_bytes(spec: &Value, served_json: &dyn Fn(&Value) -> Vec<u8>) -> Vec<
 /// Builds the endpoint behaviour and, independently of any client, what the reply means.
 pub fn build(script: &Value, served_json: &dyn Fn(&Value) -> Vec<u8>) -> Built {
     match script["kind"].as_str().unwrap_or("") {
-        "refuse" => Built { behaviour: Behaviour::Refuse, meaning: Meaning::Broken("connection refused".into()), class: "refused-connection".into(), cut_bucket: "-".into() },
+        "refuse" => Built { behaviour: Behaviour::Refuse, meaning: Meaning::Broken("connection refused".into()), class: "refused-connection".into(), cut_bucket: "-".into(), either_ok: false },
         "close-early" => {
             let rst = script["rst"].as_bool().unwrap_or(false);
             let after = script["after"].as_u64().unwrap_or(0) as usize;
@@ -389,11 +396,12 @@ pub fn build(script: &Value, served_json: &dyn Fn(&Value) -> Vec<u8>) -> Built {
                 meaning: Meaning::Broken("closed before the request was read".into()),
                 class: format!("{}close-early-{}", if https { "tls-to-plaintext-" } else { "" }, if rst { "rst" } else { "fin" }),
                 cut_bucket: if after == 0 { "0".into() } else if after < 100 { "<100".into() } else { ">=100".into() },
+                either_ok: false,
             }
         }
         "no-reply" => {
             let rst = script["rst"].as_bool().unwrap_or(false);
-            Built { behaviour: Behaviour::NoReply { rst }, meaning: Meaning::Broken("request read, no reply".into()), class: format!("no-reply-{}", if rst { "rst" } else { "fin" }), cut_bucket: "-".into() }
+            Built { behaviour: Behaviour::NoReply { rst }, meaning: Meaning::Broken("request read, no reply".into()), class: format!("no-reply-{}", if rst { "rst" } else { "fin" }), cut_bucket: "-".into(), either_ok: false }
         }
         "stall" => {
             // same bytes as the reply cut at that point, but the connection stays open
@@ -402,7 +410,7 @@ pub fn build(script: &Value, served_json: &dyn Fn(&Value) -> Vec<u8>) -> Built {
                 Behaviour::Reply { segments, .. } => segments,
                 _ => vec![],
             };
-            Built { behaviour: Behaviour::Stall { segments }, meaning: Meaning::Broken("endpoint went silent; the client's timeout ends the exchange".into()), class: format!("stall-after-{}", b.cut_bucket), cut_bucket: b.cut_bucket }
+            Built { behaviour: Behaviour::Stall { segments }, meaning: Meaning::Broken("endpoint went silent; the client's timeout ends the exchange".into()), class: format!("stall-after-{}", b.cut_bucket), cut_bucket: b.cut_bucket, either_ok: false }
         }
         _ => build_reply(script, served_json),
     }
@@ -442,6 +450,7 @@ fn build_reply(r: &Value, served_json: &dyn Fn(&Value) -> Vec<u8>) -> Built {
     }
     let declared = (body.len() as i64 + cl_delta).max(0) as usize;
     let mut encoded = vec![];
+    let mut either_ok = false;
     if no_body_status {
         // no framing headers, no body
     } else {
@@ -452,6 +461,10 @@ fn build_reply(r: &Value, served_json: &dyn Fn(&Value) -> Vec<u8>) -> Built {
             }
             "chunked" => {
                 head.extend_from_slice(b"Transfer-Encoding: chunked\r\n");
+                if let Some(d) = r["also_cl"].as_i64() {
+                    head.extend_from_slice(format!("Content-Length: {}\r\n", (body.len() as i64 + d).max(0)).as_bytes());
+                    either_ok = true;
+                }
                 let chunk = r["chunk"].as_u64().unwrap_or(64).max(1) as usize;
                 let ext = if r["chunk_ext"].as_bool().unwrap_or(false) { ";ext=1;q=\"x\"" } else { "" };
                 for (i, c) in body.chunks(chunk).enumerate() {
@@ -563,9 +576,9 @@ fn build_reply(r: &Value, served_json: &dyn Fn(&Value) -> Vec<u8>) -> Built {
         let b = r["body"]["kind"].as_str().unwrap_or("");
         let bl = if b == "garbage" { format!("garbage:{}", r["body"]["label"].as_str().unwrap_or("")) } else { b.to_string() };
         let damage = if cut.is_some() { format!("cut-{}{}", framing, if rst { "-rst" } else { "-fin" }) } else if cl_delta < 0 { "content-length-short".into() } else if cl_delta > 0 { "content-length-long".into() } else { "intact".into() };
-        format!("{}xx/{}/{}/{}", status / 100, bl, framing, damage)
+        format!("{}xx/{}/{}{}/{}", status / 100, bl, framing, if either_ok { "+content-length" } else { "" }, damage)
     };
-    Built { behaviour: Behaviour::Reply { segments, rst, delay_ms: r["delay_ms"].as_u64().unwrap_or(0) }, meaning, class: if r["delay_ms"].as_u64().unwrap_or(0) > 0 { format!("slow/{}", class) } else { class }, cut_bucket: bucket }
+    Built { behaviour: Behaviour::Reply { segments, rst, delay_ms: r["delay_ms"].as_u64().unwrap_or(0) }, meaning, class: if r["delay_ms"].as_u64().unwrap_or(0) > 0 { format!("slow/{}", class) } else { class }, cut_bucket: bucket, either_ok }
 }
 
 pub fn success_expected(m: &Meaning) -> bool {
